@@ -17,7 +17,7 @@ git -C /repo worktree add -q $WT HEAD || exit 2
 cd $WT
 cp $OUT/m$I.diff $DST/patch.diff
 cp $OUT/m${I}_demo.rs $DST/demo.rs
-DEMO_CMD=$(python3 -c "import json;print(json.load(open('$OUT/m$I.json'))['demo_cmd'])" 2>/dev/null | sed "s#out/m${I}_demo.rs#$DST/demo.rs#" | sed 's/([^)]*)//g' | sed 's#^ *cd /tmp/[^ ]* *&& *##')
+DEMO_CMD=$(python3 -c "import json;print(json.load(open('$OUT/m$I.json'))['demo_cmd'])" 2>/dev/null | sed "s#[^ ]*out/m${I}_demo.rs#$DST/demo.rs#" | sed 's/([^)]*)//g' | sed 's#^ *cd /tmp/[^ ]* *&& *##')
 # the demo command copies the demo into a tests/ directory that may not exist yet
 for d in $(echo "$DEMO_CMD" | grep -o '[a-z0-9_-]*/tests/' | sort -u); do mkdir -p $WT/$d; done
 # demo without the change
